@@ -14,6 +14,13 @@
 using namespace SimTK;
 using vf::Plan; using vf::Op; using vf::Result; using vf::Rng;
 
+// ---- the process clock is simulated: clock() and time() (read by CMA-ES and the L-BFGS-B timer) resolve to these
+// definitions from every library, advance by a seeded step per reading and jump at a seeded reading, so no
+// result can depend on real time and a replay sees exactly the same readings
+static long g_clockNow = 0, g_clockStep = 1000, g_clockReads = 0, g_clockJumpAt = -1, g_clockJump = 0;
+extern "C" clock_t clock(void) noexcept { if (++g_clockReads == g_clockJumpAt) g_clockNow += g_clockJump; g_clockNow += g_clockStep; return (clock_t)g_clockNow; }
+extern "C" time_t time(time_t* t) noexcept { time_t v = (time_t)(1600000000L + clock() / CLOCKS_PER_SEC); if (t) *t = v; return v; }
+
 struct Sched;
 static Sched* g_sched = nullptr;
 enum { SITE_FORCE = 0, SITE_HANDLER = 1, SITE_REPORTER = 2 };
@@ -188,6 +195,7 @@ struct C46 : vf::Engine {
                 o.set("seed", (long)(r.next() >> 16)).set("integ", integ).setr("acc", std::pow(10.0, -r.range(2, low ? 3 : 5))).setr("dt", r.pick(std::vector<double>{0.004, 0.01, 0.02, 0.04})).set("steps", r.range(3, 10)).set("stepper", r.chance(0.4) ? 1 : 0).set("mesh", r.chance(0.25) ? 1 : 0).set("cons", r.chance(0.3) ? 1 : 0); }
             p.ops.push_back(o); }
         p.setcfg("perturb0", (int)r.below(256)); p.setcfg("perturb1", (int)r.below(256));
+        p.setcfg("clock_step", (long)r.pick(std::vector<long>{1, 1000, 250000, 40000000})); p.setcfg("clock_jump_at", r.chance(0.5) ? r.range(1, 400) : -1); p.setcfg("clock_jump", (long)r.pick(std::vector<long>{-5000000000L, 3000000, 900000000000L}));
         // schedule: creation order, interleaved stepping, noise, destruction, heap perturbation
         int nsched = r.range(8, tier == "thorough" ? 60 : 36);
         for (int k = 0; k < nsched; ++k) { int w = (int)r.below(100); Op o;
@@ -212,6 +220,7 @@ struct C46 : vf::Engine {
         const int nt = (int)S.recipes.size();
         // ---------------- phase 1: every task alone, from a fresh start (the reference)
         mallopt(M_PERTURB, (int)p.cfgn("perturb0", 0));
+        g_clockNow = 0; g_clockStep = 1000; g_clockReads = 0; g_clockJumpAt = -1; long clockReads0 = 0;
         std::vector<std::vector<uint64_t>> ref(nt); std::vector<char> refOk(nt, 1);
         for (int k = 0; k < nt; ++k) {
             try { SimTask t(k, S.recipes[k]); for (int i = 0; i < S.recipes[k].nsteps; ++i) t.step(); ref[k] = t.digest; }
@@ -219,8 +228,9 @@ struct C46 : vf::Engine {
         }
         for (auto& op : p.ops) if (op.kind == "noise") S.checkNoise((int)op.num("kind", 0), (uint64_t)op.num("seed", 1), noise((int)op.num("kind", 0), (uint64_t)op.num("seed", 1)), "alone");
         for (auto& f : p.faults) if (f.kind == "reent" && f.num("what", 0) != 0) S.checkNoise((int)f.num("kind", 0), (uint64_t)f.num("seed", 1), noise((int)f.num("kind", 0), (uint64_t)f.num("seed", 1)), "alone");
-        // ---------------- phase 2: the same tasks under the seeded schedule
+        // ---------------- phase 2: the same tasks under the seeded schedule, on a different heap pattern and a different (skewed, jumping) clock
         mallopt(M_PERTURB, (int)p.cfgn("perturb1", 0));
+        g_clockStep = std::max(1L, p.cfgn("clock_step", 1000)); g_clockJumpAt = g_clockReads + p.cfgn("clock_jump_at", -1); g_clockJump = p.cfgn("clock_jump", 0); if (p.cfgn("clock_jump_at", -1) < 0) g_clockJumpAt = -1;
         S.tasks.resize(nt); S.enabled = true; std::vector<std::unique_ptr<char[]>> junk; long steps = 0, destroyedMid = 0, compared = 0; std::set<int> everCreated;
         auto compare = [&](int k) {
             if (!S.tasks[k] || !refOk[k]) return; const std::vector<uint64_t>& d = S.tasks[k]->digest; size_t n = d.size();
@@ -260,7 +270,7 @@ struct C46 : vf::Engine {
         } catch (const std::exception& e) { res.fail("unexpected-exception", "exception", e.what()); }
         S.enabled = false; S.tasks.clear(); mallopt(M_PERTURB, 0); g_sched = nullptr;
         res.count("probe_reentrant_switch_to_other_task", S.reentSwitches); res.count("probe_reentrant_noise_call", S.reentNoise); res.count("probe_switch_inside_calcForce", S.bySite[0]); res.count("probe_switch_inside_event_handler", S.bySite[1]); res.count("probe_switch_inside_reporter", S.bySite[2]);
-        res.count("fault_callback_throw", S.throwsFired); res.count("states_compared", compared); res.count("task_steps", steps);
+        res.count("fault_callback_throw", S.throwsFired); res.count("clock_readings", g_clockReads - clockReads0); if (g_clockJumpAt > 0 && g_clockReads >= g_clockJumpAt) res.count("fault_clock_jump"); res.count("states_compared", compared); res.count("task_steps", steps);
         { std::set<uint64_t> seeds; bool dup = false; for (auto& rc : S.recipes) if (!seeds.insert(rc.seed).second) dup = true; if (dup) res.count("probe_same_recipe_twice"); }
         res.nontrivial = nt >= 2 && (S.reentSwitches + S.reentNoise) >= 1 && compared >= 6; res.simtime = (double)steps;
         hash.mix(compared); hash.mix(steps); for (auto& v : ref) for (auto d : v) hash.mix(d);
